@@ -218,6 +218,7 @@ impl Session {
             return Ok(());
         }
         self.close_notify.notify_waiters();
+        vp!("close.after_flag");
 
         // Close stream data receiver so process_stream_data exits
         // Close all streams and notify pending waiters
@@ -231,6 +232,7 @@ impl Session {
             }
         }
 
+        vp!("close.after_drain");
         // Attempt to shutdown writer gracefully
         {
             let mut writer = self.writer.lock().await;
@@ -379,6 +381,7 @@ impl Session {
                     buffer.len()
                 );
                 self.handle_frame(frame).await?;
+                vp!("recv_loop.between_frames");
             }
             if frame_count == 0 && n > 0 {
                 tracing::debug!(
@@ -426,6 +429,7 @@ impl Session {
             frame.stream_id,
             frame.data.len()
         );
+        vp!("handle_frame.entry");
         match frame.cmd {
             Command::Push => {
                 // Data frame - forward to stream
@@ -511,6 +515,7 @@ impl Session {
                         receive_map.insert(stream_id, receive_tx);
                     }
 
+                    vp!("handle_frame.syn_between_tables");
                     {
                         let mut streams = self.streams.write().await;
                         streams.insert(stream_id, stream.clone());
@@ -776,6 +781,7 @@ impl Session {
             return Err(AnyTlsError::SessionClosed);
         }
 
+        vp!("open_stream.after_closed_check");
         let stream_id = self
             .stream_id
             .fetch_add(1, std::sync::atomic::Ordering::SeqCst);
@@ -809,6 +815,7 @@ impl Session {
 
         tracing::trace!("[Session] Stream {} stored in session", stream_id);
 
+        vp!("open_stream.before_syn");
         // Send SYN frame
         tracing::trace!("[Session] Sending SYN frame for stream {}", stream_id);
         let frame = Frame::control(Command::Syn, stream_id);
@@ -905,6 +912,7 @@ impl Session {
             }
         }
 
+        vp!("write_frame.after_buffer_take");
         // Log what we're about to send
         if buffer.len() >= 7 {
             tracing::info!(
@@ -950,6 +958,7 @@ impl Session {
         let pkt = self
             .pkt_counter
             .fetch_add(1, std::sync::atomic::Ordering::SeqCst);
+        vp!("write_with_padding.after_counter");
         let padding_factory = {
             let padding_guard = self.padding.read().await;
             padding_guard.clone()
@@ -985,10 +994,12 @@ impl Session {
             return Ok(());
         }
 
+        vp!("write_with_padding.before_lock");
         let mut writer = self.writer.lock().await;
 
         for size in pkt_sizes {
             let remain_payload_len = buffer.len();
+            vp!("write_with_padding.between_pieces");
 
             if size == CHECK_MARK {
                 // Check mark: if no remaining payload, return early
@@ -1100,6 +1111,7 @@ impl Session {
             .store(true, std::sync::atomic::Ordering::Relaxed);
         self.write_frame(frame).await?;
 
+        vp!("start_client.after_settings");
         // Start receive loop in background
         let session = Arc::clone(&self);
         tokio::spawn(async move {
@@ -1288,6 +1300,7 @@ impl Session {
                         stream_id,
                         iteration
                     );
+                    vp!("process_stream_data.before_write");
                     // Send data frame
                     let write_result = self.write_data_frame(stream_id, data).await;
                     match write_result {
